@@ -1030,10 +1030,23 @@ def p6g_batch(ctx):
             whole, t = gen_mesh(rng, max_cells_per_dir=3, allow_duplicates=False, allow_orphans=False)
         if i % 3 == 0:
             make_extendable(rng, whole)
+        mixed = i % 4 == 1
+        if mixed:
+            whole = mg6.round_to_f32(whole)
         pieces = split_pieces(rng, whole, rng.choice([2, 2, 3]))
         if len(pieces) < 2:
             continue
         rng.shuffle(pieces)
+        if mixed:
+            # every operand stored differently (dtype / byte order / layout / index type); a narrow index type only where it
+            # can also count the points of the MERGED data set (beyond that: the opt-in batch d' below)
+            total = sum(len(p["points"]) for p in pieces)
+            for p in pieces:
+                st = rng.choice(mg6.STORAGES)
+                # (uint64 next to a signed index type: numpy promotes the concatenated connectivity to float64 and every
+                # later strip / sort raises IndexError -- second defect of the same family, opt-in like d')
+                if mg6._CONN_CAP[st["conn"]] >= total and (st["conn"] != "u64" or os.environ.get("FCV_P6G_MERGE_NARROW") == "1"):
+                    p["storage"] = st
         pre0 = [(rng.choice(REORDERINGS),)] if rng.random() < 0.6 else []
         pre = [[rng.choice(REORDERINGS)] if rng.random() < 0.7 else [] for _ in pieces[1:]]
         if i % 5 == 0:
@@ -1043,13 +1056,30 @@ def p6g_batch(ctx):
             post = [("extend", 3)] + post
         rdp = rng.random() < 0.8
         check_case(ctx, {"lm": pieces[0], "steps": pre0 + [("merge", pieces[1:], rdp, pre)] + post},
-                   ["p6g-merge-views", "dedup" if rdp else "keep-duplicates", "style=" + str(t["style"])])
+                   ["p6g-merge-views", "dedup" if rdp else "keep-duplicates", "style=" + str(t["style"])] +
+                   (["p6g-merge-mixed-storage"] if mixed else []))
     for i in range(ctx.scale(6, 60)):
         lm, t = gen_mesh(rng, max_cells_per_dir=2, allow_duplicates=False, allow_orphans=False)
         # the same object twice, duplicates kept: every point and cell twice
         check_case(ctx, {"lm": lm, "steps": [("merge", ["self"], False)] + ([("sort_cells",)] if i % 2 else [])},
                    ["p6g-merge-self", "keep-duplicates"])
     lap("merge-views")
+    # (d') OPT-IN (FCV_P6G_MERGE_NARROW=1): a further operand of merge whose connectivity is stored with a narrow index type,
+    # behind a first operand with more points than that type can count.  This is a GENUINE DEFECT of fieldcompare found by
+    # this audit (notes/PHASE6_G1m.md, "Suspected genuine defects": the renumbered corners are written back into the narrow
+    # array and wrap) and in no KNOWN_FINDINGS class, so the batch is not part of the committed run.
+    if os.environ.get("FCV_P6G_MERGE_NARROW") == "1":
+        for cdt, npts in (("u8", 256), ("i8", 128), ("u8", 300), ("i16", 32768), ("u16", 65536)):
+            first = mg6.big_lattice(npts - 1, 0, dim=1, style="line", point_fields=1, cell_fields=1)
+            second = mg6.big_lattice(1, 0, dim=1, style="line", offset=float(npts + 10), point_fields=1, cell_fields=1)
+            second["storage"] = dict(mg6.DEFAULT_STORAGE, conn=cdt)
+            check_case(ctx, {"lm": first, "steps": [("merge", [second], True)], "model": False},
+                       ["p6g-merge-narrow", "narrow-index-" + cdt])
+        first = mg6.big_lattice(2, 0, dim=1, style="line")
+        second = mg6.big_lattice(1, 0, dim=1, style="line", offset=10.0)
+        second["storage"] = dict(mg6.DEFAULT_STORAGE, conn="u64")
+        check_case(ctx, {"lm": first, "steps": [("merge", [second], True), ("strip",)], "model": False},
+                   ["p6g-merge-narrow", "merge-u64-next-to-i64"])
     # (e) several views of one base object
     for i in range(ctx.scale(40, 800)):
         lm, t = gen_base(rng) if i % 2 else mg6.gen_pair_mesh(rng)
